@@ -351,4 +351,11 @@ func (s *Sched) Drain(maxSteps int) {
 
 // Sleep blocks the calling task for d of simulated time (a durable block; the
 // clock moves only when the scheduler lets it).
-func Sleep(d time.Duration) { time.Sleep(d) }
+//
+// Two tasks whose sleeps end at the same simulated instant wake together; each
+// parks again immediately, so the scheduler (not the runtime) decides who
+// continues first.
+func Sleep(d time.Duration) {
+	time.Sleep(d)
+	Yield("sim.Sleep#wake")
+}
